@@ -143,6 +143,9 @@ func runOps(ops []Op, bs map[string]interface{}, emitted *[]interface{}) *failur
 			}
 		case "fail":
 			return &failure{marker: op.V.(string)}
+		case "outbad", "outnan":
+			// _.out() of a value that cannot be serialised fails the action
+			return &failure{marker: ""}
 		case "loop":
 			return &failure{marker: "timeout", timeout: true}
 		default:
@@ -243,6 +246,10 @@ func jsOps(sb *strings.Builder, ops []Op, ind string) {
 			fmt.Fprintf(sb, "%s}\n", ind)
 		case "fail":
 			fmt.Fprintf(sb, "%sthrow new Error(%s);\n", ind, js(op.V))
+		case "outbad":
+			fmt.Fprintf(sb, "%s_.out({\"id\": \"unserialisable\", \"f\": function(){}});\n", ind)
+		case "outnan":
+			fmt.Fprintf(sb, "%s_.out({\"id\": \"nan\", \"v\": 0/0});\n", ind)
 		case "loop":
 			fmt.Fprintf(sb, "%swhile (true) { }\n", ind)
 		default:
